@@ -604,8 +604,8 @@ func (s *Service) ProcessRequest(ctx *core.Context, m map[string]interface{}, ou
 				case map[string]interface{}:
 					_, err = s.ProcessRequest(ctx, m, out)
 					if err != nil {
-						problem := fmt.Sprintf(`{"error":"%s"}`, err.Error())
-						_, err = out.Write([]byte(problem))
+						problem, _ := json.Marshal(map[string]string{"error": err.Error()})
+						_, err = out.Write(problem)
 					}
 				default:
 					problem := fmt.Sprintf(`"bad type %T"`, x)
@@ -954,7 +954,11 @@ func (s *Service) ProcessRequest(ctx *core.Context, m map[string]interface{}, ou
 		if err != nil {
 			return nil, err
 		}
-		bs := []byte(fmt.Sprintf(`{"fact":%s,"id":"%s"}`, js, id))
+		idjs, err := json.Marshal(id)
+		if err != nil {
+			return nil, err
+		}
+		bs := []byte(fmt.Sprintf(`{"fact":%s,"id":%s}`, js, idjs))
 
 		if _, err = out.Write(bs); err != nil {
 			core.Log(core.ERROR, ctx, "/api/loc/facts/get", "warning", err)
